@@ -344,6 +344,28 @@ def with_comments(root: Obj, every: int = 1) -> Obj:
     return n
 
 
+def with_whitespace(root: Obj, unit: str = "    ") -> Obj:
+    """A copy indented the way a pretty-printer (or a person) writes it: every element that has child nodes gets whitespace
+    text before its first child and every child node a whitespace tail. Elements with character data keep it; elements
+    without children stay empty. The compact copy and this one are the same document."""
+    n = clone(root)
+
+    def rec(e, depth):
+        kids = e.attrs["__children__"]
+        if not kids:
+            return
+        if not (e.attrs.get("text") or "").strip():
+            e.attrs["text"] = "\n" + unit * (depth + 1)
+        for i, k in enumerate(kids):
+            if not (k.attrs.get("tail") or "").strip():
+                k.attrs["tail"] = "\n" + unit * (depth + 1 if i + 1 < len(kids) else depth)
+            if is_elem(k):
+                rec(k, depth + 1)
+    rec(n, 0)
+    attach_nsmap(n)
+    return n
+
+
 # ------------------------------------------------------------------------------------------- helpers for the checks
 def fingerprint(v, seen=None, depth=0) -> str:
     """Canonical text of a model object graph (identity-free): used to show that an operation left it unchanged."""
@@ -503,3 +525,160 @@ def tiny_src(date="2024-01-01T00:00:00") -> str:
       ], ns={{"xtce": "{URI}"}}, xtce_ns_prefix="xtce", date={date!r}))({{p.name: p for p in [
         parameters.Parameter("A", parameter_types.IntegerParameterType("A_T", {_int(8)})),
         parameters.Parameter("B", parameter_types.IntegerParameterType("B_T", {_int(8, default_calibrator=f"{C}.PolynomialCalibrator([{C}.PolynomialCoefficient(1.5, 1)])")}))]}})"""
+
+
+# ------------------------------------------------------------------------------------------- a hand-written document
+def third_text() -> str:
+    """A document as a person writes it by hand (the library's writer never produces these spellings): the `signed`
+    attribute of integer types (which does not describe the encoding), zero-padded decimal literals, a comparison list with
+    two comparisons on one parameter (a range, and a contradiction), time encodings with scale and offset together, context
+    calibrators whose contexts have different numbers of comparisons, a spline with a step, a little-endian termination
+    character, and indentation."""
+    hdr_types = "\n".join(f'''      <xtce:IntegerParameterType name="{n}_T" signed="false">
+        <xtce:UnitSet/>
+        <xtce:IntegerDataEncoding sizeInBits="{w}" encoding="unsigned"/>
+      </xtce:IntegerParameterType>''' for n, w in HEADER)
+    hdr_params = "\n".join(f'      <xtce:Parameter name="{n}" parameterTypeRef="{n}_T"/>' for n, _ in HEADER)
+    hdr_entries = "\n".join(f'          <xtce:ParameterRefEntry parameterRef="{n}"/>' for n, _ in HEADER)
+
+    def u8(n):
+        return f'''      <xtce:IntegerParameterType name="{n}_T" signed="false">
+        <xtce:IntegerDataEncoding sizeInBits="8" encoding="unsigned"/>
+      </xtce:IntegerParameterType>'''
+
+    def child(name, comparisons, entries):
+        cmp_ = "\n".join(f'              <xtce:Comparison parameterRef="{p}" comparisonOperator="{op}" value="{v}"/>' for p, op, v in comparisons)
+        ent = "\n".join(f'          <xtce:ParameterRefEntry parameterRef="{e}"/>' for e in entries)
+        return f'''      <xtce:SequenceContainer name="{name}">
+        <xtce:EntryList>
+{ent}
+        </xtce:EntryList>
+        <xtce:BaseContainer containerRef="CCSDSPacket">
+          <xtce:RestrictionCriteria>
+            <xtce:ComparisonList>
+{cmp_}
+            </xtce:ComparisonList>
+          </xtce:RestrictionCriteria>
+        </xtce:BaseContainer>
+      </xtce:SequenceContainer>'''
+    return f'''<?xml version="1.0" encoding="UTF-8"?>
+<xtce:SpaceSystem xmlns:xtce="{URI}" name="HandWritten">
+  <xtce:Header date="2024-01-01T00:00:00" version="1.0" author="checker"/>
+  <xtce:TelemetryMetaData>
+    <xtce:ParameterTypeSet>
+{hdr_types}
+{u8("ID")}
+{u8("MODE")}
+{u8("X8")}
+{u8("Y8")}
+      <xtce:AbsoluteTimeParameterType name="T_ABS_T">
+        <xtce:Encoding units="s" scale="0.5" offset="100">
+          <xtce:IntegerDataEncoding sizeInBits="16" encoding="unsigned"/>
+        </xtce:Encoding>
+        <xtce:ReferenceTime>
+          <xtce:Epoch>TAI</xtce:Epoch>
+        </xtce:ReferenceTime>
+      </xtce:AbsoluteTimeParameterType>
+      <xtce:RelativeTimeParameterType name="T_REL_T">
+        <xtce:Encoding units="s" offset="-3.5">
+          <xtce:IntegerDataEncoding sizeInBits="16" encoding="unsigned"/>
+        </xtce:Encoding>
+      </xtce:RelativeTimeParameterType>
+      <xtce:IntegerParameterType name="SU_T" signed="false">
+        <xtce:UnitSet>
+          <xtce:Unit>counts</xtce:Unit>
+        </xtce:UnitSet>
+        <xtce:IntegerDataEncoding sizeInBits="16" encoding="twosComplement"/>
+      </xtce:IntegerParameterType>
+      <xtce:IntegerParameterType name="US_T" signed="true">
+        <xtce:IntegerDataEncoding sizeInBits="8" encoding="unsigned"/>
+      </xtce:IntegerParameterType>
+      <xtce:IntegerParameterType name="CC_T" signed="false">
+        <xtce:IntegerDataEncoding sizeInBits="8" encoding="unsigned">
+          <xtce:DefaultCalibrator>
+            <xtce:PolynomialCalibrator>
+              <xtce:Term exponent="0" coefficient="0.5"/>
+              <xtce:Term exponent="1" coefficient="1"/>
+            </xtce:PolynomialCalibrator>
+          </xtce:DefaultCalibrator>
+          <xtce:ContextCalibratorList>
+            <xtce:ContextCalibrator>
+              <xtce:ContextMatch>
+                <xtce:Comparison parameterRef="MODE" value="1"/>
+              </xtce:ContextMatch>
+              <xtce:Calibrator>
+                <xtce:PolynomialCalibrator>
+                  <xtce:Term exponent="1" coefficient="2"/>
+                </xtce:PolynomialCalibrator>
+              </xtce:Calibrator>
+            </xtce:ContextCalibrator>
+            <xtce:ContextCalibrator>
+              <xtce:ContextMatch>
+                <xtce:ComparisonList>
+                  <xtce:Comparison parameterRef="MODE" comparisonOperator="&lt;=" value="2"/>
+                  <xtce:Comparison parameterRef="ID" comparisonOperator="&gt;=" value="5"/>
+                </xtce:ComparisonList>
+              </xtce:ContextMatch>
+              <xtce:Calibrator>
+                <xtce:PolynomialCalibrator>
+                  <xtce:Term exponent="0" coefficient="7"/>
+                  <xtce:Term exponent="1" coefficient="3"/>
+                </xtce:PolynomialCalibrator>
+              </xtce:Calibrator>
+            </xtce:ContextCalibrator>
+          </xtce:ContextCalibratorList>
+        </xtce:IntegerDataEncoding>
+      </xtce:IntegerParameterType>
+      <xtce:FloatParameterType name="SP_T">
+        <xtce:IntegerDataEncoding sizeInBits="8" encoding="unsigned">
+          <xtce:DefaultCalibrator>
+            <xtce:SplineCalibrator order="1">
+              <xtce:SplinePoint raw="0" calibrated="0"/>
+              <xtce:SplinePoint raw="10" calibrated="10"/>
+              <xtce:SplinePoint raw="10" calibrated="20"/>
+              <xtce:SplinePoint raw="20" calibrated="30"/>
+            </xtce:SplineCalibrator>
+          </xtce:DefaultCalibrator>
+        </xtce:IntegerDataEncoding>
+      </xtce:FloatParameterType>
+      <xtce:StringParameterType name="STR_T">
+        <xtce:StringDataEncoding encoding="UTF-16LE">
+          <xtce:SizeInBits>
+            <xtce:Fixed>
+              <xtce:FixedValue>64</xtce:FixedValue>
+            </xtce:Fixed>
+            <xtce:TerminationChar>2100</xtce:TerminationChar>
+          </xtce:SizeInBits>
+        </xtce:StringDataEncoding>
+      </xtce:StringParameterType>
+    </xtce:ParameterTypeSet>
+    <xtce:ParameterSet>
+{hdr_params}
+      <xtce:Parameter name="ID" parameterTypeRef="ID_T"/>
+      <xtce:Parameter name="MODE" parameterTypeRef="MODE_T"/>
+      <xtce:Parameter name="X8" parameterTypeRef="X8_T"/>
+      <xtce:Parameter name="Y8" parameterTypeRef="Y8_T"/>
+      <xtce:Parameter name="T_ABS" parameterTypeRef="T_ABS_T"/>
+      <xtce:Parameter name="T_REL" parameterTypeRef="T_REL_T"/>
+      <xtce:Parameter name="SU" parameterTypeRef="SU_T"/>
+      <xtce:Parameter name="US" parameterTypeRef="US_T"/>
+      <xtce:Parameter name="CC" parameterTypeRef="CC_T"/>
+      <xtce:Parameter name="SP" parameterTypeRef="SP_T"/>
+      <xtce:Parameter name="STR" parameterTypeRef="STR_T"/>
+    </xtce:ParameterSet>
+    <xtce:ContainerSet>
+      <xtce:SequenceContainer name="CCSDSPacket" abstract="true">
+        <xtce:EntryList>
+{hdr_entries}
+          <xtce:ParameterRefEntry parameterRef="ID"/>
+          <xtce:ParameterRefEntry parameterRef="MODE"/>
+        </xtce:EntryList>
+      </xtce:SequenceContainer>
+{child("RANGE_A", [("PKT_APID", "&gt;=", "100"), ("PKT_APID", "&lt;", "200")], ["T_ABS", "T_REL", "SU", "US"])}
+{child("RANGE_B", [("PKT_APID", "&gt;=", "200"), ("PKT_APID", "&lt;", "300")], ["CC", "SP", "STR"])}
+{child("NEVER", [("ID", "==", "1"), ("PKT_APID", "&gt;=", "300"), ("ID", "==", "2")], ["X8"])}
+{child("TEN", [("PKT_APID", "&gt;=", "0300"), ("ID", "==", "010")], ["Y8"])}
+    </xtce:ContainerSet>
+  </xtce:TelemetryMetaData>
+</xtce:SpaceSystem>
+'''
